@@ -59,7 +59,7 @@ impl Rx {
     /// with junk on purpose: the marker of `drain` could not even be sent then).
     pub fn discard_all(&self) -> Vec<Vec<u8>> {
         let mut kept = vec![];
-        let mut buf = vec![0u8; 70000];
+        let mut buf = vec![0u8; 300_000];
         match self {
             Rx::Udp(rx, _) => {
                 let _ = rx.set_nonblocking(true);
@@ -92,7 +92,7 @@ impl Rx {
             Rx::Unix(_, tx, p) => tx.send_to(&marker, p).map(|_| ()).map_err(|e| e.to_string())?,
         }
         let mut out = vec![];
-        let mut buf = vec![0u8; 70000];
+        let mut buf = vec![0u8; 300_000];
         loop {
             let r = match self {
                 Rx::Udp(rx, _) => rx.recv(&mut buf),
@@ -377,6 +377,9 @@ pub fn buffered(spec: &crate::Spec) -> Report {
     }
     lens.sort();
     lens.dedup();
+    if let Some(l) = spec.kv.get("lens") {
+        lens = l.split(',').filter_map(|x| x.parse().ok()).collect();
+    }
     let faults = spec.usize("faults", 0) == 1 && which == "unix";
     // fault kind: the server is away (ENOENT) or its receive queue is full (EAGAIN on a non-blocking socket)
     let eagain = faults && spec.str("fault", "enoent") == "eagain";
@@ -561,6 +564,22 @@ pub fn buffered(spec: &crate::Spec) -> Report {
                     }
                     Res::Err(Some(1), "send refused".into())
                 }
+                Err(e) if which == "udp" && e.raw_os_error() == Some(90) => {
+                    // EMSGSIZE: legitimate exactly when what a conforming writer would send here is
+                    // larger than an IPv4 UDP payload can be
+                    let bytes = match &call {
+                        Call::Emit(m) if m.len + 1 > cap => m.bytes(),
+                        _ => model.concat(&model.pending),
+                    };
+                    if bytes.len() <= 65507 {
+                        bad(&mut rep, &["C13", "C07"], "buffered-emsgsize-below-limit", format!("{} at op {}: EMSGSIZE although the datagram due here has only {} bytes", ctx, i, bytes.len()));
+                    }
+                    tally.packets_dropped += 1;
+                    tally.bytes_dropped += bytes.len() as u64;
+                    attempts.push(Attempt { bytes, ok: false, fail_id: Some(1) });
+                    rep.flag("datagram-too-large-for-udp");
+                    Res::Err(Some(1), "EMSGSIZE".into())
+                }
                 Err(e) => Res::Err(None, e.to_string()),
             };
             for b in model.step(&call, &attempts, &r) {
@@ -592,9 +611,16 @@ pub fn buffered(spec: &crate::Spec) -> Report {
                     return rep;
                 }
             };
-            let attempts: Vec<Attempt> = got.iter().map(|g| Attempt { bytes: g.clone(), ok: true, fail_id: None }).collect();
+            let mut attempts: Vec<Attempt> = got.iter().map(|g| Attempt { bytes: g.clone(), ok: true, fail_id: None }).collect();
             if !attempts.is_empty() {
                 rep.flag("drop-sent-remainder");
+            }
+            // what is left may be too large for any UDP datagram: the kernel refuses it (EMSGSIZE),
+            // the drop cannot report that, and nothing is demanded after a failed write during drop
+            let rest = model.concat(&model.pending);
+            if which == "udp" && attempts.is_empty() && rest.len() > 65507 {
+                attempts.push(Attempt { bytes: rest, ok: false, fail_id: Some(1) });
+                rep.flag("datagram-too-large-for-udp");
             }
             for b in model.step(&Call::Drop, &attempts, &Res::Ok(0)) {
                 let mut props: Vec<&'static str> = b.props.clone();
@@ -1015,5 +1041,67 @@ pub fn client_flush(spec: &crate::Spec) -> Report {
             break;
         }
     }
+    rep
+}
+
+
+/// C14 beyond 32 bits: more than 2^32 bytes accounted on one sink (refused sends of one huge
+/// payload, which cost no I/O) and many datagrams through one sink; the figures stay exact.
+pub fn stats_volume(spec: &crate::Spec) -> Report {
+    let mut rep = Report::new(&spec.raw);
+    let rx = Rx::udp(false).unwrap();
+    let sink = UdpMetricSink::from(rx.addr(), UdpSocket::bind("127.0.0.1:0").unwrap()).unwrap();
+    let huge = "x".repeat(96 << 20);
+    let mut tally = Tally::default();
+    let n = spec.usize("n", 48);
+    for i in 0..n {
+        rep.evaluations += 1;
+        match sink.emit(&huge) {
+            Ok(_) => {
+                bad(&mut rep, &["C14", "C13"], "huge-accepted", "a 96 MiB datagram was accepted".into());
+                return rep;
+            }
+            Err(_) => {
+                tally.packets_dropped += 1;
+                tally.bytes_dropped += huge.len() as u64;
+            }
+        }
+        if i % 8 == 7 || i + 1 == n {
+            check_stats(&mut rep, &format!("after {} refused sends of 96 MiB ({} bytes in total)", i + 1, tally.bytes_dropped), &sink.stats(), &tally);
+        }
+        if rep.full() {
+            return rep;
+        }
+    }
+    rep.distinct(&tally.bytes_dropped);
+    // and through a wrapping queuing sink
+    let q = QueuingMetricSink::from(sink);
+    check_stats(&mut rep, "read through a queuing sink after more than 2^32 dropped bytes", &q.stats(), &tally);
+    // many accepted datagrams of the maximum size on a second sink (> 2^32 bytes sent)
+    let sink2 = UdpMetricSink::from(rx.addr(), UdpSocket::bind("127.0.0.1:0").unwrap()).unwrap();
+    let m = "y".repeat(65507);
+    let mut t2 = Tally::default();
+    let rounds = spec.usize("sent", 66_000);
+    for i in 0..rounds {
+        match sink2.emit(&m) {
+            Ok(_) => {
+                t2.packets_sent += 1;
+                t2.bytes_sent += m.len() as u64;
+            }
+            Err(_) => {
+                t2.packets_dropped += 1;
+                t2.bytes_dropped += m.len() as u64;
+            }
+        }
+        if i % 64 == 0 {
+            let _ = rx.discard_all();
+        }
+    }
+    let _ = rx.discard_all();
+    rep.evaluations += rounds as u64;
+    rep.distinct(&t2.bytes_sent);
+    check_stats(&mut rep, &format!("after {} datagrams of 65507 bytes", rounds), &sink2.stats(), &t2);
+    rep.flag("more-than-2^32-bytes-accounted");
+    rep.sample(Json::obj().set("bytes_dropped", tally.bytes_dropped).set("bytes_sent", t2.bytes_sent));
     rep
 }
